@@ -203,6 +203,10 @@ func ExecRound(dir string, prevRoot []byte, rd Round) (root []byte, dead []strin
 	if OnBeforeSave != nil {
 		OnBeforeSave(block.GetChangeCount())
 	}
+	if rd.Version%3 == 1 {
+		// the block state is moved onto the persistent store first and saved there afterwards (nothing reads it in between)
+		block.SetNodeDB(pndb)
+	}
 	if err = block.SaveChanges(SaveCtx(), pndb, false); err != nil {
 		return root, dead, err
 	}
